@@ -118,4 +118,23 @@ PROPS["C18"] = {
     "level_note": "Collaborators havocked; one formatter under an assumed contract; engine and z3 trusted.",
 }
 
+PROPS["C03"] = {
+    "contracts": ["contracts/C03_tools.py"],
+    "level": "proof",
+    "extra": [{"name": "C03/scan[tool-call-sites]", "kind": "scan", "cmd": ["python3-vt", "pyvc/scan_c03.py"]},
+              {"name": "C03/bounded[capability sets over 3 caps x 5 entry points]", "kind": "bounded", "tiers": ("thorough",),
+               "cmd": ["/venv/bin/python", "native/c03_bounded.py"]}],
+    "assumptions": ["tools are SimpleTool-shaped objects (name, required_capabilities: set[Capability], execute); a Tool exposing only `capabilities` "
+                    "is covered by the same code path (getattr chain) but not modelled separately",
+                    "Tool.execute and the expression walker _compute_node are havocked collaborators",
+                    "ast.parse returns an abstract tree (attributes are uninterpreted functions of the node) or raises",
+                    "the provider in the LLM tool loop is adversarial (arbitrary tool calls, arbitrary many)"],
+    "trusted_base": ["symbolic sets over the Capability enum (z3 arrays) with subset as a quantified formula",
+                     "syntactic scan: receivers flowing from `.tools`"],
+    "level_text": "authorised(engine, tool) is a call-site precondition on every invocation of Tool.execute, proved in the expression pathway, in "
+                  "execute_tool_call and (through execute_tool_call's contract) in the LLM tool loop, for all capability sets, registries, arguments and "
+                  "histories (the clause holds from an arbitrary registry state); a repository scan obliges every tool execution site to be under such a contract.",
+    "level_note": "Collaborators havocked; scan is syntactic; engine and z3 trusted.",
+}
+
 NOT_APPLICABLE = {}
